@@ -563,6 +563,54 @@ def dumpDataWith (s : Sys) (unitsArg styleArg : Option String) (natypesArg : Opt
   let r := resolveArgs unitsArg styleArg natypesArg pot s.natypes
   dumpData { s with natypes := r.2.2 } r.2.1 r.1 (unitsOf r.1) f fname
 
+/-! ### where the text goes (tail of all four writers): returned, or written to a file name / an open stream -/
+
+/-- the `f` argument of a writer: not given, a file name, or an open text stream. -/
+inductive Target where
+  | none
+  | path (name : String)
+  | stream
+deriving Repr, DecidableEq
+
+/-- the name the command snippet may mention: only a file NAME is one. -/
+def Target.fname : Target → Option String
+  | .path n => some n
+  | _ => Option.none
+
+/-- what a call does with the text: is it among the returned values, is the optional second value (command
+    snippet / filled-in prop_info) returned, is the text written to the target. -/
+structure Delivered where
+  returnsContent : Bool
+  returnsExtra : Bool
+  writes : Bool
+deriving Repr, DecidableEq
+
+/-- the text is returned exactly when no target is given, else written to the target (never both); the second value
+    is returned exactly when it is asked for. -/
+def deliver (t : Target) (wantExtra : Bool) : Delivered :=
+  { returnsContent := decide (t = .none), returnsExtra := wantExtra, writes := !decide (t = .none) }
+
+/-- number of returned values: 0 → `None`, 1 → the value itself, 2 → a tuple. -/
+def Delivered.count (d : Delivered) : Nat := d.returnsContent.toNat + d.returnsExtra.toNat
+
+/-- outcome of a writer call: the values it returns (in order) and what arrives in the target. -/
+structure CallResult where
+  returned : List (List Char)
+  written : Option (List Char)
+deriving Repr, DecidableEq
+
+def callResult (d : Delivered) (content : List Char) (extra : List Char) : CallResult :=
+  { returned := (if d.returnsContent then [content] else []) ++ (if d.returnsExtra then [extra] else []),
+    written := if d.writes then some content else Option.none }
+
+/-- `System.dump('atom_data', f=, atom_style=, units=, natypes=, potential=, float_format=, return_info=)` as a whole:
+    arguments resolved, file and snippet produced from the resolved names (the snippet names the target only when it is
+    a file name), text returned or written. -/
+def dataCall (s : Sys) (unitsArg styleArg : Option String) (natypesArg : Option Nat) (pot : Option PotArgs)
+    (unitsOf : String → Units) (f : Fmt) (t : Target) (returnInfo : Bool) : Res CallResult :=
+  (dumpDataWith s unitsArg styleArg natypesArg pot unitsOf f t.fname).map fun ci =>
+    callResult (deliver t returnInfo) ci.1 ci.2
+
 /-! ### LAMMPS dump file (atomman/dump/atom_dump/dump.py) -/
 
 def min4 (a b c d : Rat) : Rat :=
@@ -727,6 +775,21 @@ def writePoscarDoc (s : Sys) (header : List String) (symbols : Option (List Stri
 def writePoscar (s : Sys) (header : List String) (symbols : Option (List String)) (coordstyle : String)
     (scale : Rat) (f : Fmt) : Res (List Char) :=
   (writePoscarDoc s header symbols coordstyle scale f).map renderJoin
+
+/-! ### the other three writers as whole calls (text returned or written; `atom_dump` / `table` can also return the
+    filled-in prop_info, which the model does not carry: `extra` is empty) -/
+
+def dumpCall (s : Sys) (props : List (String × List Nat)) (u : Units) (f : Fmt) (sv : StepVal) (t : Target)
+    (returnPropInfo : Bool) : Res CallResult :=
+  (writeDumpStep s props u f sv).map fun c => callResult (deliver t returnPropInfo) c []
+
+def tableCall (s : Sys) (cols : List ColSpec) (u : Units) (f : Fmt) (header : Bool) (t : Target)
+    (returnPropInfo : Bool) : Res CallResult :=
+  (writeTable s cols u f header).map fun c => callResult (deliver t returnPropInfo) c []
+
+def poscarCall (s : Sys) (header : List String) (symbols : Option (List String)) (coordstyle : String)
+    (scale : Rat) (f : Fmt) (t : Target) : Res CallResult :=
+  (writePoscar s header symbols coordstyle scale f).map fun c => callResult (deliver t false) c []
 
 /-! ## Independent parsers (from the published format rules, not from atomman's readers) -/
 
